@@ -340,7 +340,8 @@ def run_assignment(asg, forms, fam='R'):
             k._require_usage_flags = True
             st, val = attempt(lambda: k.sign(TEXT))
             rec('sublocked', True, 'sign', None, None if st == 'refused' else
-                'sign with a locked signing subkey did not refuse with PGPError (%s: %s)' % (st, str(val)[:80]), kind='mixed-lock')
+                'sign with a locked signing subkey did not refuse with PGPError (%s)' % (
+                    'it returned a signature' if st == 'ok' else 'it raised ' + str(val)[:70]), kind='mixed-lock')
             with sk.unlock('sub-pw'):
                 st, val = attempt(lambda: k.sign(TEXT, created=dt(50)))
                 p = ('sign failed with the subkey unlocked: %s %s' % (st, val)) if st != 'ok' else \
